@@ -126,6 +126,9 @@ def run(res, tier, seed, replay):
     for i, off in enumerate(range(4080, 4096)):
         line, lts = arena_cases[i]
     histlib.check_histories(res, "c01", 0, seed, "full", extra_lines=flavours + arena_cases)
+    # random histories: the same functions faked again and again with a small set of replacements (A, B, A ...), calls in between:
+    # every call must reach the replacement installed LAST
+    histlib.check_histories(res, "c01", 60 if tier == "quick" else 2500, seed + 1001, "full", max_lifetimes=3)
     res.extra["real_arena_modes"] = {m: modes.count(m) for m in set(modes)}
     if res.corr_diffs:
         # a disagreement between model and implementation with no failing monitor: broken correspondence
